@@ -38,6 +38,8 @@ class Module:
         normalise.empty_displays(self.tree)
         normalise.attr_builtins(self.tree)
         normalise.filter_loops(self.tree)
+        normalise.append_loops(self.tree)
+        normalise.sort_method_to_sorted(self.tree)
         normalise.flatten_else(self.tree)
         normalise.merge_nested_ifs(self.tree)
         self.funcs = {}  # qualname -> FunctionDef
